@@ -96,7 +96,8 @@ func (a *Array) MarshalJSONBuffer(dst []byte) ([]byte, error) {
 	dst = append(dst, '[')
 	i := a.Iter()
 	var elem Iter
-	for {
+	// An empty array (or one with only deleted elements) has nothing to consume.
+	for i.PeekNextTag() != TagArrayEnd {
 		t, err := i.AdvanceIter(&elem)
 		if err != nil {
 			return nil, err
